@@ -1,7 +1,7 @@
 SPECIFICATION Spec
 CONSTANTS
   MAXARGS = 5
-  LENS = {1, 2, 5}
+  LENS = {1, 5}
   NS = {0, 1, 2, 3}
   LS = {0, 1, 2}
   SDELTAS = {99, 0, 3, 7, 10, 14}
